@@ -14,4 +14,7 @@ impl<'a> LinesIter<'a> {
 }
 #[verifier::external_body]
 pub fn __langs_contains(langs: &[&str], l: &&str) -> (r: bool)
-    ensures r == exists|k: int| 0 <= k < langs@.len() && (#[trigger] langs@[k])@ == l@ { langs.contains(l) }
+    ensures r == exists|k: int| 0 <= k < langs@.len() && #[trigger] strs_view(langs@)[k] == l@ { langs.contains(l) }
+pub uninterp spec fn str_lines_md(text: Seq<char>) -> Seq<Seq<char>>;
+#[verifier::external_body]
+pub fn __lines_iter<'a>(text: &'a str) -> (r: LinesIter<'a>) ensures r.remaining() == str_lines_md(text@), r.remaining().len() < usize::MAX { unimplemented!() }
